@@ -275,6 +275,30 @@ def run(ctx):
     from . import c06, c11, c12
     c06.python_half(ctx, py)
     c12.t2(ctx, py)
+    # "exactly when documented": the guard of the generalization rule is the generator's freshness judgement, which must not only be
+    # sound (above) but also answer "fresh" WHENEVER the documented judgement does - per constructor, on every valuation of the atoms
+    # (the judgements on the children taken as arbitrary booleans); a stricter judgement refuses steps the documentation allows
+    from ..core import decide, pypattern
+    from ..spec import judgements as SJ
+    n_ex = 0
+    for c_ in pypattern.pattern_classes(py):
+        if c_.name == 'Instantiate' or 'evar_is_free' not in c_.methods:
+            continue
+        doc = SJ.DOC.get((c_.name, 'e_fresh'))
+        if doc is None:
+            continue
+        df = pypattern.bool_method_df(py, c_.name, 'evar_is_free')
+        cex = None
+        for val in decide.valuations(decide.merge_domains(df, doc), SJ.consistent):
+            if decide.f_eval(doc, val) and df.truth(val) is False:
+                cex = val
+                break
+        n_ex += 1
+        ctx.ob('rule-guard', f'freshness-exact/{c_.name}', cex is None,
+               '' if cex is None else f'{c_.name}.evar_is_free answers "not fresh" where the documented e_fresh of {c_.name} '
+               f'({decide.f_show(doc)}) holds, at {cex}: exists_generalization is refused although the documented rule applies',
+               py.where(c_.module, c_.methods['evar_is_free']))
+    ctx.require(n_ex >= 10, 'anchor vanished: evar_is_free of the pattern classes')
     # the conclusion of schema instantiation IS `conclusion.instantiate(delta)`: it is the documented instance only if instantiate
     # (and the substitutions it resolves) follow the textbook table on every pattern class (shared with C11)
     c11.python_half(ctx, py)
